@@ -24,6 +24,18 @@ CLAIMED = {
          "Decides the selection rule of C05 structurally for all 16 factory sites and the wrappers they build: primitives come only from Enabled entries (iterator yield dominated by KeyStatus()==Enabled over 0..Len()-1) or Handle.Primary(); key ID, output prefix, adapter prefix and map key stored with a primitive are computed from that same entry; the primary slot is assigned only under entry.IsPrimary(); accepting operations are tried only on candidates returned by PrimitivesMatchingPrefix(input) whose lookup uses exactly the 5 leading bytes under a length guard plus the prefix-less bucket; every logged key ID is read from the pair whose operation succeeded. Behaviour of the wrapped primitives and rotation histories are not decided (C11 covers the manager).",
          "Trusted: go/ssa incl. range-over-func lowering; idioms recognised are listed in checker/rules/c05.go.",
          "DESIGN.md §4 C05"),
+ "C02": ("must-pass-through (dominance) of authentication facts computed by fixpoint over the call graph; exact-prefix guards; input tiling; linear-arithmetic in-bounds proofs of every input-derived slice/index",
+         "Decides structural necessary conditions of C02 for every tink.AEAD implementer: plaintext is released only under a passed authentication check (stdlib Open, constant-time comparison of a recomputed tag, or success of a function for which that holds); the verdict is never discarded; the whole output prefix is compared; no trailing input bytes are ignored; every loop-invariant slice/index on ciphertext-derived data (also in callees) is proved in bounds, so truncated/garbage inputs cannot panic there. It does not decide that the MAC/GHASH values are right.",
+         "Trusted: go/ssa; stdlib Open contract; size fields non-negative (validated at construction). Block-loop indexing is outside the prover and listed.",
+         "DESIGN.md §4 C02, §2 engines C/D"),
+ "C03": ("as C02 for tink.Verifier, plus points-to identity of the signature bytes handed to the stdlib, equality-length guards, constant-folded curve-size table, legacy-suffix condition agreement, DER re-encode guard, PSS salt-length guard",
+         "Decides structural necessary conditions of C03 for every tink.Verifier implementer and the legacy-suffix sites of signers: nil only under the stdlib's positive verdict; raw signature bytes (no re-padding) for RSA/Ed25519; Ed25519 and IEEE-P1363 lengths pinned by equality (P1363 to the key's own curve; table 64/96/132 folded); 0x00 suffix exactly under variant==Legacy on both sides; strict DER by re-encoding; PSS salt length cannot be the stdlib's 'auto' value (known finding: salt length 0).",
+         "Trusted: go/ssa; stdlib verification calls implement their standards; curve names of crypto/elliptic.",
+         "DESIGN.md §4 C03"),
+ "C04": ("as C02 for tink.MAC, plus sibling-computation identity (VerifyMAC compares with the same resolved computation ComputeMAC uses), full-length comparison shape, constant-folded parameter validators at their boundaries",
+         "Decides structural necessary conditions of C04: acceptance only under a constant-time full-length comparison between the caller's whole tag and a value from the sibling ComputeMAC path on the same key; exact prefix; no ignored trailing tag bytes; LEGACY suffix condition agreement; validators accept exactly key>=16 / 10<=tag<=digest (HMAC, five hashes) and key==32 / 10<=tag<=16 (CMAC) — evaluated by constant propagation, and constructors pass through them. RFC 2104/4493 value equality is not decided.",
+         "Trusted: go/ssa; hmac.Equal / ConstantTimeCompare semantics.",
+         "DESIGN.md §4 C04"),
 }
 
 NOT_APPLICABLE = {
